@@ -7,7 +7,10 @@
      op  = B:<col>:<nrows>:<defs: digits | - (NULL) | E (empty array)>:<values: hex,hex,... | - >     x = empty value
          | N                                                                                    new_row_group
          | C                                                                                    close
-   Output:  OK <statuses, comma separated> <closed 0|1> <file bytes hex>   |   ERR <code>   |   FAULT *)
+   Output:  OK <statuses, comma separated> <closed 0|1> <file bytes hex>   |   ERR <code>   |   FAULT
+
+     rd <verify 0|1> <file bytes hex>
+   Output:  OK rows=<n> schema=<name:type:rep:tlen,..> groups=<num_rows>[<col>;<col>..]|..   col = row.row..   row = N | x | hex *)
 let ptype_of s = match s with
   | "B" -> Writer_ext.TBool | "I32" -> Writer_ext.TInt32 | "I64" -> Writer_ext.TInt64 | "F" -> Writer_ext.TFloat
   | "D" -> Writer_ext.TDouble | "BA" -> Writer_ext.TByteArray | "FL" -> Writer_ext.TFlba
@@ -50,6 +53,24 @@ let handle toks =
            Printf.sprintf "OK %s %d %s"
              (String.concat "," (List.map (fun z -> string_of_int (int_of_z z)) sts))
              (if closed then 1 else 0) (hex_of_bytes bytes)
+       | Writer_ext.Err c -> Printf.sprintf "ERR %d" (int_of_z c)
+       | Writer_ext.Fault _ -> "FAULT")
+  | ["rd"; verify; file] ->
+      (* the reader model (open, footer, every chunk of every row group page after page) on the bytes of a file *)
+      (match Writer_ext.w_read (verify = "1") (bytes_of_hex file) with
+       | Writer_ext.Ok r ->
+           let tyname t = match t with
+             | Writer_ext.TBool -> "B" | Writer_ext.TInt32 -> "I32" | Writer_ext.TInt64 -> "I64" | Writer_ext.TFloat -> "F"
+             | Writer_ext.TDouble -> "D" | Writer_ext.TByteArray -> "BA" | Writer_ext.TFlba -> "FL" in
+           let col c = Printf.sprintf "%s:%s:%s:%d" (hex_of_bytes c.Writer_ext.c_name) (tyname c.Writer_ext.c_type)
+                         (match c.Writer_ext.c_rep with Writer_ext.Optional -> "O" | Writer_ext.Required -> "R")
+                         (int_of_n c.Writer_ext.c_tlen) in
+           let row r = match r with None -> "N" | Some [] -> "x" | Some v -> hex_of_bytes v in
+           let column rows = if rows = [] then "-" else String.concat "." (List.map row rows) in
+           let group (n, cols) = Printf.sprintf "%d[%s]" (int_of_n n) (String.concat ";" (List.map column cols)) in
+           Printf.sprintf "OK rows=%d schema=%s groups=%s" (int_of_n r.Writer_ext.rr_num_rows)
+             (if r.Writer_ext.rr_schema = [] then "-" else String.concat "," (List.map col r.Writer_ext.rr_schema))
+             (if r.Writer_ext.rr_groups = [] then "-" else String.concat "|" (List.map group r.Writer_ext.rr_groups))
        | Writer_ext.Err c -> Printf.sprintf "ERR %d" (int_of_z c)
        | Writer_ext.Fault _ -> "FAULT")
   | _ -> "RUNNER-ERROR unknown-op"
